@@ -71,5 +71,10 @@ func cipherNewGCM(b cipher.Block) (cipher.AEAD, error) {
 
 //zzsym:replace golang.org/x/crypto/argon2.IDKey
 func argon2IDKey(password, salt []byte, time, memory uint32, threads uint8, keyLen uint32) []byte {
-	return KDF(password, salt, keyLen)
+	// the cost parameters are inputs of the function: a different time, memory or
+	// lane count gives an unrelated key
+	in := append(append([]byte(nil), salt...),
+		byte(time), byte(time>>8), byte(time>>16), byte(time>>24),
+		byte(memory), byte(memory>>8), byte(memory>>16), byte(memory>>24), threads)
+	return KDF(password, in, keyLen)
 }
